@@ -308,4 +308,17 @@ theorem rankBatches_flatten (pend : List Nat) (size r batch : Nat) (hb : 0 < bat
   unfold rankBatches
   rw [windows_flatten]
 
+/-- effect of a whole single-rank run on every position -/
+theorem computeRun_spec {ρ : Type} (f : Nat → ρ) (s : DS ρ) (batch : Nat) (hb : 0 < batch)
+    (hlen : s.results.length = s.status.length) (p : Nat) (hp : p < s.status.length) :
+    ((computeRun f s batch hb).1.results[p]? =
+        if s.status[p]? = some 0 then some (f p) else s.results[p]?) ∧
+    ((computeRun f s batch hb).1.status[p]? =
+        if s.status[p]? = some 0 then some 1 else s.status[p]?) := by
+  simp only [computeRun, foldl_applyBatch, rankBatches_single_flatten, applyBatch_results,
+    applyBatch_status, mem_pending]
+  constructor
+  · by_cases h : s.status[p]? = some 0 <;> simp [h, hlen, hp]
+  · by_cases h : s.status[p]? = some 0 <;> simp [h, hp]
+
 end Usid.Proc
